@@ -10,7 +10,9 @@ import zlib
 LEVEL = 'proof'
 RULE = ('(a) state files: every byte position x several new values of small files written by save_session, all 24 '
         'header bytes and sampled blob bytes of real session files, truncations, header fields one off; one case = one '
-        '(file, position, value); (b) resume: generated and fixed BASIC programs (open sequential/random files, '
+        '(file, position, value); (b) resume: generated and fixed BASIC programs (files of every kind held open across the '
+        'suspension - sequential INPUT/OUTPUT/APPEND, RANDOM with FIELD, RANDOM used through PRINT#/WRITE#/INPUT#/LINE INPUT#/'
+        'INPUT$ on its record buffer, SCRN: and LPT1: device files - with binary and text I/O on them after the resume, '
         'strings, arrays, FOR/WHILE, GOSUB, ON ERROR, DATA, screen output) suspended through the quit signal at the '
         'k-th executed line for every k (sampled when the run is long), at several points in one run, and at an inserted '
         'SYSTEM statement; one case = one (program, interruption schedule); non-trivial = the program was running '
@@ -275,7 +277,7 @@ def state_file_part(ctx):
 # (b) resume of running programs
 
 VARS = [b'X!', b'Y%', b'D#', b'S$', b'T$', b'K!', b'EC!', b'I!', b'J!', b'W1!', b'W2!', b'R!', b'R$', b'L$', b'Q!',
-        b'A!()', b'N$()', b'B%()']
+        b'A!()', b'N$()', b'B%()', b'N$', b'Q!', b'A$', b'B$', b'T!', b'C!', b'A!', b'V$', b'F$', b'G$']
 
 INFILE = b''.join(b'line %d of input, with "quotes", and commas\r\n' % i for i in range(1, 13))
 
@@ -294,7 +296,7 @@ class Gen(object):
     def block(self, budget):
         rng = self.rng
         kinds = ['assign', 'string', 'print', 'file', 'gosub', 'ongosub', 'if', 'gotoskip', 'read', 'error',
-                 'locate', 'swapdef', 'random', 'array']
+                 'locate', 'swapdef', 'random', 'array', 'recordtext', 'recordtext']
         if self.depth < 2 and budget > 0:
             kinds += ['for', 'while', 'for', 'while']
         k = rng.choice(kinds)
@@ -334,6 +336,41 @@ class Gen(object):
                               'GET 3,1:PRINT F$;CVS(G$);LOC(3)',
                               'CLOSE 1:OPEN "OUT.TXT" FOR APPEND AS 1:PRINT #1,"reopened";LOF(1)>0',
                               'PRINT LOC(1);LOC(2);EOF(2)']))
+
+    def b_recordtext(self, _):
+        # text-mode I/O on the record buffer of the RANDOM files (#3 has a FIELD, #4 has none), split over
+        # statements so that a suspension can fall between the text access and the PUT/GET around it
+        rng = self.rng
+        rec = '(K MOD 3)+1'
+        kind = rng.randrange(8)
+        if kind == 0:
+            self.unit('GET 4,%s' % rec)
+            self.unit('WRITE #4,K,LEFT$(S$,8)')
+            self.unit('PUT 4,%s' % rec)
+        elif kind == 1:
+            self.unit('GET 4,%s:PRINT #4,"k";K;",";' % rec)
+            self.unit('PRINT #4,Y%')
+            self.unit('PUT 4,%s' % rec)
+        elif kind == 2:
+            self.unit('GET 4,%s' % rec)
+            self.unit('LINE INPUT #4,L$:PRINT "<";L$;">"')
+        elif kind == 3:
+            self.unit('GET 4,%s' % rec)
+            self.unit('INPUT #4,R')
+            self.unit('INPUT #4,R$:PRINT R;R$')
+        elif kind == 4:
+            self.unit('GET 4,%s' % rec)
+            self.unit('L$=INPUT$(5,#4):PRINT L$;LOC(4);LOF(4)')
+        elif kind == 5:
+            self.unit('GET 3,(K MOD 4)+1')
+            self.unit('L$=INPUT$(3,#3):PRINT LEN(L$);F$')
+        elif kind == 6:
+            self.unit('GET 3,(K MOD 4)+1:PRINT #3,"ab";')
+            self.unit('PRINT #3,"c";:PUT 3,(K MOD 4)+1')
+            self.unit('GET 3,(K MOD 4)+1:PRINT F$;"|";G$')
+        else:
+            self.unit('PRINT #5,"scrn";K;')
+            self.unit('PRINT #6,"lpt";K;S$')
 
     def b_gosub(self, _):
         self.unit('GOSUB %d' % self.rng.choice([8000, 8100, 8200]))
@@ -409,7 +446,8 @@ class Gen(object):
             self._lastown = own
         lines = ['10 ON ERROR GOTO 9000', '20 DIM A(10),N$(5),B%(3,3):RANDOMIZE 7',
                  '30 OPEN "OUT.TXT" FOR OUTPUT AS 1', '40 OPEN "IN.TXT" FOR INPUT AS 2',
-                 '50 OPEN "R.DAT" FOR RANDOM AS 3 LEN=8:FIELD 3,4 AS F$,4 AS G$']
+                 '50 OPEN "R.DAT" FOR RANDOM AS 3 LEN=8:FIELD 3,4 AS F$,4 AS G$',
+                 '60 OPEN "T.DAT" FOR RANDOM AS 4 LEN=32', '70 OPEN "SCRN:" FOR OUTPUT AS 5:OPEN "LPT1:" FOR OUTPUT AS 6']
         num = 100
         nums = [num + 10 * i for i in range(len(body))]
         for i, st in enumerate(body):
@@ -451,6 +489,18 @@ FIXED = [
      '40 PRINT #1,"entry";I', '50 NEXT', '60 OPEN "NEW.TXT" FOR APPEND AS 2', '70 X=X+1', '80 PRINT #2,"n";X', '90 CLOSE',
      '100 OPEN "LOG.TXT" FOR INPUT AS 1', '110 WHILE NOT EOF(1)', '120 LINE INPUT #1,L$:PRINT L$', '130 WEND', '140 CLOSE',
      '150 PRINT "@@DONE"', '160 SYSTEM'],
+    ['10 OPEN "REC.DAT" FOR RANDOM AS 1 LEN=16:FIELD 1,16 AS R$', '20 OPEN "TXT.DAT" FOR RANDOM AS 2 LEN=24',
+     '30 OPEN "SCRN:" FOR OUTPUT AS 3', '40 OPEN "LPT1:" FOR OUTPUT AS 4', '50 FOR I=1 TO 3', '60 GET 1,I',
+     '70 PRINT #1,"IT";I;",";', '80 PRINT #1,I*I', '90 PUT 1,I', '100 GET 2,I:WRITE #2,I,"t"+STR$(I)', '110 PUT 2,I',
+     '120 PRINT #3,"scr";I', '130 PRINT #4,"lpt";I', '140 NEXT', '150 FOR I=3 TO 1 STEP -1', '160 GET 1,I',
+     '170 INPUT #1,N$,Q', '180 GET 2,I', '190 LINE INPUT #2,L$', '200 GET 1,I:A$=INPUT$(4,#1)',
+     '210 PRINT N$;Q;L$;A$;LOC(1);LOF(2)', '220 T=T+Q', '230 NEXT', '240 CLOSE', '250 PRINT "@@DONE";T', '260 SYSTEM'],
+    ['10 OPEN "SEQ.TXT" FOR OUTPUT AS 1:OPEN "IN.TXT" FOR INPUT AS 2', '20 OPEN "MIX.DAT" FOR RANDOM AS 3 LEN=12',
+     '30 FIELD 3,2 AS N$,10 AS V$', '40 OPEN "APP.TXT" FOR APPEND AS 4', '50 WHILE C<4', '60 C=C+1', '70 LINE INPUT #2,L$',
+     '80 PRINT #1,C;LEFT$(L$,6)', '90 PRINT #4,"a";C', '100 LSET N$=MKI$(C*3)', '110 LSET V$=L$', '120 PUT 3,C',
+     '130 GET 3,C', '140 PRINT #3,"tx";C;', '150 PUT 3,C+4', '160 WEND', '170 FOR I=8 TO 1 STEP -1', '180 GET 3,I',
+     '190 B$=INPUT$(6,#3)', '200 PRINT CVI(N$);V$;"/";B$;LOC(3)', '210 NEXT', '220 CLOSE 1:OPEN "SEQ.TXT" FOR INPUT AS 1',
+     '230 INPUT #1,A,A$:PRINT A;A$;EOF(1);EOF(2)', '240 CLOSE', '250 PRINT "@@DONE";C', '260 SYSTEM'],
 ]
 
 # programs that stop at their own SYSTEM statements (suspended and resumed every time), with the uninterrupted twin
@@ -480,8 +530,11 @@ class Runner(object):
         with open(os.path.join(self.dir, 'IN.TXT'), 'wb') as f:
             f.write(INFILE)
         self.sink = Sink()
-        self.session = Session(output_streams=self.sink, input_streams=None, peek_values={},
-                               devices={'C': self.dir}, current_device='C')
+        # the printer is a host file outside the mount (observed like the files on the mount)
+        self.lptdir = tempfile.mkdtemp(prefix='pcbv_c40l_')
+        self.session = Session(output_streams=self.sink, input_streams=None, peek_values={}, max_files=8,
+                               devices={'C': self.dir, 'LPT1': 'FILE:' + os.path.join(self.lptdir, 'LPT1.OUT')},
+                               current_device='C')
         for l in lines:
             self.session.execute(l.encode('latin-1'))
         self.lines_run = 0
@@ -498,6 +551,7 @@ class Runner(object):
             pass
         shutil.rmtree(self.dir, ignore_errors=True)
         shutil.rmtree(self.statedir, ignore_errors=True)
+        shutil.rmtree(self.lptdir, ignore_errors=True)
 
     def hook_for(self, schedule):
         import struct
@@ -616,6 +670,9 @@ class Runner(object):
         for fn in sorted(os.listdir(self.dir)):
             with open(os.path.join(self.dir, fn), 'rb') as f:
                 files[fn] = f.read()
+        for fn in sorted(os.listdir(self.lptdir)):
+            with open(os.path.join(self.lptdir, fn), 'rb') as f:
+                files['(printer) ' + fn] = f.read()
         obs['files'] = files
         return obs
 
@@ -759,7 +816,7 @@ def skip_to_part(ctx, programs):
 
 def resume_part(ctx):
     rng = ctx.rng
-    nprog = 8 if ctx.quick else 30
+    nprog = 7 if ctx.quick else 30
     per_prog = 16 if ctx.quick else 60
     programs = [list(p) for p in FIXED] + [Gen(rng).program() for _ in range(nprog)]
     skip_to_part(ctx, programs[:3] + programs[len(FIXED):len(FIXED) + (2 if ctx.quick else 10)])
